@@ -1671,12 +1671,17 @@ numpy.ufunc.reduceat.html
                 # Wrap result if necessary (lazily)
                 if out is None:
                     if is_floating_dtype(res.dtype):
+                        if res.shape != self.shape:
+                            # Broadcasting against a larger operand: don't
+                            # propagate weighting if shape changes
+                            weighting = NumpyTensorSpaceConstWeighting(
+                                1.0, exponent)
                         # Weighting contains exponent
                         spc_kwargs = {'weighting': weighting}
                     else:
                         # No `exponent` or `weighting` applicable
                         spc_kwargs = {}
-                    out_space = type(self.space)(self.shape, res.dtype,
+                    out_space = type(self.space)(res.shape, res.dtype,
                                                  **spc_kwargs)
                     out = out_space.element(res)
 
@@ -1702,10 +1707,10 @@ numpy.ufunc.reduceat.html
                 # We don't use exponents or weightings since we don't know
                 # how to map them to the spaces
                 if out1 is None:
-                    out1_space = type(self.space)(self.shape, res1.dtype)
+                    out1_space = type(self.space)(res1.shape, res1.dtype)
                     out1 = out1_space.element(res1)
                 if out2 is None:
-                    out2_space = type(self.space)(self.shape, res2.dtype)
+                    out2_space = type(self.space)(res2.shape, res2.dtype)
                     out2 = out2_space.element(res2)
 
                 return out1, out2
